@@ -306,6 +306,27 @@ class PStr(str):
     _IS_TENSORFLOW_PLUGIN = True
 
 
+def traced(fn, log):
+    """a user decorator: all its wrappers share ONE code object; functools.wraps copies fn.__module__ onto the wrapper"""
+    @functools.wraps(fn)
+    def wrapper(a=0, b=2, *rest, k=3, **kw):
+        conv = _probe()
+        if a:
+            r = ('T', a, b, rest, k, sorted(kw.items()))
+        else:
+            r = ('F', a, b, rest, k, sorted(kw.items()))
+        log.append(('run', conv) + r)
+        log.append(('inner', fn(a)))
+        return r
+    return wrapper
+
+
+def traced_target(x):
+    if x:
+        return ('user', x)
+    return ('user', 0)
+
+
 class FalsyBool(C):
     """instances are falsy through __bool__"""
     def __bool__(self):
@@ -578,6 +599,16 @@ def build(name, env, log):
         from malt.impl import api
         f = api.convert(recursive=True, optional_features=None)(Z.make_fn(log))
         return Built(f, default_facts(ent=ent(mod=M), artifact=True, already_converted=True))
+    if base == 'fn_artifact':     # a closure of the common factory, marked as an autograph artifact
+        f = Z.make_fn(log)
+        f.autograph_info__ = None
+        return Built(f, default_facts(ent=ent(mod=M), artifact=True))
+    if base == 'traced_copy':     # wrapper of a user decorator around copy.copy: functools.wraps makes it look like a member of `copy`
+        f = Z.traced(copy.copy, log)
+        return Built(f, default_facts(ent=ent(mod=['copy'])))
+    if base == 'traced_user':     # the same decorator (same code object) around a user function
+        f = Z.traced(Z.traced_target, log)
+        return Built(f, default_facts(ent=ent(mod=M)))
     if base == 'fn_selfattr':     # a plain function carrying a user-set __self__ attribute
         f = Z.make_fn(log)
         f.__self__ = 'FOREIGN'
@@ -857,7 +888,7 @@ BASES_STATIC = [
     'fn', 'gfn', 'raiser', 'lambda', 'fn_unloadedmod', 'genfn', 'forelse', 'nosource', 'execfn', 'decorated', 'lru', 'dnc',
     'tograph', 'convertwrapped', 'fn_selfattr', 'tfplugin',
     'partialmethod', 'posonly', 'staticmethod_obj',
-    'mix_tc', 'mix_plain', 'bound_falsy_bool', 'bound_falsy_len', 'bound_emptylist', 'classm_falsy', 'classm_falsy_inst', 'callobj_falsy',
+    'fn_artifact', 'traced_copy', 'traced_user', 'mix_tc', 'mix_plain', 'bound_falsy_bool', 'bound_falsy_len', 'bound_emptylist', 'classm_falsy', 'classm_falsy_inst', 'callobj_falsy',
     'bound', 'unbound', 'classm', 'classm_inst', 'staticm', 'bound_gen', 'bound_testcase', 'nt_sub_method', 'nt_inherited',
     'bound_allowcls:malt.c13fake', 'bound_sub_inherit:malt.c13fake', 'bound_sub_override:malt.c13fake',
     'callobj', 'callobj_allowcls:malt.c13fake', 'callobj_allowcall:malt.c13fake', 'callobj_gen', 'callobj_forelse',
